@@ -10,21 +10,20 @@ reg(Prop('C14', [
     Stream('c14.ehra', 1, 1, 'oracle'),
     Stream('c14.pad64', 1, 1, 'oracle'),
     Stream('c14.lsda', 1, 1, 'oracle'),
-    Stream('c14.f_asz', 1, 1, 'oracle'),
+    Stream('c14.asz', 1, 1, 'oracle', exhaustive='address sizes 0..9, every multiple of 8, 255; both sections; absptr and pcrel|sdata4 FDE encodings'),
 ], clauses=[
     'factoring_exact / factoring_exact_code: factored_data_offset and factored_code_delta return Ok q exactly when the factor is non-zero and q*factor is the offset (q an i32), otherwise InvalidFrameDataOffset / InvalidFrameCodeOffset; never a panic, for every i32/i8 and u32/u8 argument incl. factor 0 and (i32::MIN, -1); decreasing offsets are InvalidFrameCodeOffset',
     'advance_loc_forms / advance_loc_encodings: nothing for an unchanged offset, otherwise exactly the spec encoding of the factored delta: the four DW_CFA_advance_loc forms by range (0x40, 0x100, 0x10000), each decoding back to the delta in both byte orders',
     'insn_write_read: every CallFrameInstruction variant decodes (CfaEncSpec) to exactly one instruction with the same meaning under the CIE factors, following bytes untouched; the only failure is InvalidFrameDataOffset, exactly when the operand to be factored is not an i32 multiple of a non-zero factor; never a panic',
     'fde_program_read / cie_program_read: the instruction area of an FDE decodes to the supplied instructions at their code offsets, that of a CIE to the initial instructions',
-    'entry_layout_cie / entry_layout_fde: in both formats |entry| = (4 or 12) + length is a multiple of a power-of-two address size; the length field holds the size of the rest; the area after the header is the instructions followed by fewer than address_size DW_CFA_nop',
+    'entry_layout_cie / entry_layout_fde: an entry is written only for address size 1/2/4/8; in both formats |entry| = (4 or 12) + length is a multiple of the address size; the length field holds the size of the rest; the area after the header is the instructions followed by fewer than address_size DW_CFA_nop',
     'cie_eqb_eq / cie_dedup_ids / cie_dedup_emission / plan_spec: add_cie returns equal ids exactly for equal CIEs; the table is written as tiles in plan order: each referenced CIE once, immediately before its first FDE, FDEs in insertion order, unreferenced CIEs not at all; each FDE tile carries the offset of its CIE tile',
     'pointer_read_back / cie_header_read / fde_header_read / table_roundtrip: against the header-parser spec (CIE id, version, augmentation string and z-data L/P/R/S, address size, factors, return register; FDE CIE pointer, pointer-encoded address/range, LSDA; absptr and pcrel applications of all nine formats) every written CIE parses to its parameters, every FDE to the offset of its CIE, its range and LSDA, and the instruction areas decode to the supplied programs',
-    'no_panic_write / lsda_mismatch_is_error / no_panic_build: the table writer does not panic on well-typed tables with power-of-two address sizes and valid CIE ids; an FDE whose LSDA presence disagrees with its CIE is InvalidAddress, never written, never a panic; building panics only in a checked build on decreasing offsets (debug_assert in add_instruction)',
+    'no_panic_write / unsupported_address_size_is_error / lsda_mismatch_is_error / no_panic_build: the table writer does not panic on any well-typed table with valid CIE ids, for every u8 address size; an address size other than 1/2/4/8 is UnsupportedWordSize (nothing written); an FDE whose LSDA presence disagrees with its CIE is InvalidAddress, never written, never a panic; building panics only in a checked build on decreasing offsets (debug_assert in add_instruction)',
 ], explored_only=[
     'the evaluated unwind rows themselves and agreement of the header-parser spec with gimli\'s own reader: oracle stream c14.rows (gimli\'s DebugFrame/EhFrame entries + UnwindTable rows over gimli\'s bytes against CIE parameters, FDE ranges, personality/LSDA and rows computed by a reference CFA machine in the OCaml generator)',
-    'address sizes other than 1/2/4/8 are a known finding (stream c14.f_asz with a watchdog writer); the theorems assume a power-of-two address size',
 ], design_ref='§5 C14',
     level_text='Coq theorems over a Gallina model of write/cfi.rs: exact factoring, the four advance_loc forms, write/decode identity of every CallFrameInstruction variant under a decoder spec of the emitted opcodes, FDE programs decode to the instructions at their code offsets, entry padding, CIE de-duplication and emission order, read-back of every CIE/FDE header field (all pointer encodings) and of the whole table against a header-parser spec, panic characterisation in both build modes. The model is tied to gimli by byte-exact differential execution (debug+release) on ~200k cases per quick run; whole-table read-back is checked with gimli\'s own reader against a reference CFA machine.',
-    level_note='Three defects of the writer found here were repaired in /repo (eh_frame return register 3c6e5b8, DWARF64 padding d2e46aa, LSDA mismatch a8af08f) and are regression streams; one is open (address sizes that are not 1/2/4/8: panic / runaway loop instead of an error). Expressions are opaque raw blobs. Trusted: Coq kernel, hand-written model (tied by differential execution), OCaml/Rust/Python glue.',
+    level_note='Four defects of the writer found here were repaired in /repo and are regression streams: eh_frame return register (3c6e5b8), DWARF64 padding (d2e46aa), LSDA mismatch (a8af08f), unsupported address sizes incl. the 0 runaway loop (768c9da). Expressions are opaque raw blobs. Trusted: Coq kernel, hand-written model (tied by differential execution), OCaml/Rust/Python glue.',
     technique='Coq proof over a Gallina model of the CFI writer + decoder spec; differential correspondence (bytes) and reader-based round-trip oracle',
 ))
